@@ -392,6 +392,46 @@ fn c06_rx2_complete() {
     kani::cover!(cfg.data_rate == old_cfg.data_rate, "verif-reached: no step");
 }
 
+// ---------------------------------------------------------------------------------------------
+// C09 "ADR back-off lowers data_rate independently of the mask": after a LinkADRReq mask was accepted for the
+// current data rate (the real channel_mask_validate said yes), a back-off step must leave the device with a data
+// rate for which the mask still has a channel, otherwise FixedChannelPlan::select_tx_channel never exits.
+fn adr_backoff_keeps_usable(r: region::Region, wide_dr: u8, witness: bool) {
+    tape::init();
+    let mut region = region::Configuration::new(r);
+    let mask = lorawan::types::ChannelMask::<9>::from(tape::arr::<9>());
+    let dr = tape::u8();
+    kani::assume(dr <= wide_dr);                                                  // an uplink data rate of the fixed plan
+    kani::assume(region.channel_mask_validate(&mask, Some(DR::from(dr))));      // the network's mask was accepted for it
+    region.channel_mask_set(mask.clone());
+    let mut narrow = false;
+    let mut i = 0;
+    while i < 8 { if mask.get_index(i) != 0 { narrow = true; } i += 1; }
+    let wide = mask.get_index(8) != 0;
+    // KF-C09-5 selector: the accepted mask has only 500 kHz channels (then dr is the 500 kHz rate)
+    kani::assume((!narrow) == witness);
+    let mut cfg = any_mac_configuration(&region);
+    cfg.data_rate = DR::from(dr);
+    let mut s = any_session();
+    kani::assume(s.fcnt_up != u32::MAX);
+    let _ = s.rx2_complete(&mut cfg, &region);
+    let new_dr = cfg.data_rate as u8;
+    assert!(if new_dr == wide_dr { wide } else { narrow }, "C09 after an ADR back-off step the mask in force still enables a channel whose bandwidth matches the new data rate (channel selection terminates)");
+    kani::cover!(new_dr != dr, "verif-reached: back-off step taken");
+}
+// @verif props=C09,C04 obligation=Session::rx2_complete.keeps_usable[US915] label=proved-complete tier=quick bound="every accepted mask x every uplink DR x every ADR counter; KF-C09-5 class excluded"
+#[kani::proof]
+#[kani::unwind(74)]
+fn c09_adr_backoff_keeps_usable_us915() { adr_backoff_keeps_usable(region::Region::US915, 4, false) }
+// @verif props=C09,C04 obligation=Session::rx2_complete.keeps_usable[AU915] label=proved-complete tier=thorough bound="every accepted mask x every uplink DR x every ADR counter; KF-C09-5 class excluded"
+#[kani::proof]
+#[kani::unwind(74)]
+fn c09_adr_backoff_keeps_usable_au915() { adr_backoff_keeps_usable(region::Region::AU915, 6, false) }
+// @verif props=C09,C04 obligation=Session::rx2_complete.keeps_usable[US915,KF-C09-5] label=proved-complete tier=quick finding=KF-C09-5
+#[kani::proof]
+#[kani::unwind(74)]
+fn c09_adr_backoff_kf5_witness() { adr_backoff_keeps_usable(region::Region::US915, 4, true) }
+
 // ================================================================================================
 // Session::prepare_buffer   (C06 counter on the wire / in MIC+encryption, C12 header bits, C08 sticky answers)
 // real DataFrame::build_into and securityhelpers run; only AES/CMAC are the recording stubs.
